@@ -931,7 +931,7 @@ def generate_package(seed: int, features: list[str] | None = None, doc_style: st
     return PackageGenerator(seed, features, doc_style).generate()
 
 
-def two_package_container(seed: int, container: str = "box") -> dict:
+def two_package_container(seed: int, container: str = "box", spread: bool | None = None) -> dict:
     """A source directory that is not a package itself but holds TWO top-level packages (get_api then keeps the directory
     as root and names the API after it)."""
     a = generate_package(seed)
@@ -941,7 +941,8 @@ def two_package_container(seed: int, container: str = "box") -> dict:
         k += 1
         b = generate_package(seed + k)
     # either side by side in the container, or each inside its own (non-package) project directory
-    spread = (seed // 7) % 2 == 1
+    if spread is None:
+        spread = (seed // 7) % 2 == 1
     pa, pb = (f"{container}/proj_one", f"{container}/zz_proj_two") if spread else (container, container)
     files = {f"{pa}/{p}": t for p, t in a["files"].items()}
     files.update({f"{pb}/{p}": t for p, t in b["files"].items()})
